@@ -217,6 +217,31 @@ func engineDirected() []namedScen {
 		})
 	}
 	sort.SliceStable(out, func(i, j int) bool { return false })
+	// definitions a loader has to refuse (or, if it takes them, execute without leaving the well-formed states): one per way
+	// in which the parts of a node can disagree
+	{
+		yes, oth := d.Cat("Yes", "r1yes"), d.Cat("Other", "r1oth")
+		mk := func(mut func(f gen.M)) *gen.Scenario {
+			f := d.Flow("A", "messaging",
+				d.Node("r1", nil, d.Switch("@input.text", []gen.M{yes, oth}, oth, []gen.M{{"type": "has_any_word", "arguments": []string{"yes"}, "category_uuid": yes["uuid"]}}, gen.M{"type": "msg"}, "R"), d.Exit("r1yes", "a2"), d.Exit("r1oth", "a3")),
+				d.Node("a2", []any{d.SendMsg("m2", "two")}, nil, d.Exit("a2x", "r1")),
+				d.Node("a3", []any{d.SendMsg("m3", "three")}, nil, d.Exit("a3x", "")))
+			mut(f)
+			return &gen.Scenario{Assets: d.BaseAssets(f), Trigger: d.Manual("A", nil), Resumes: []gen.M{d.MsgResume(0, "yes"), d.MsgResume(1, "no"), d.Timeout(2), d.MsgResume(3, "yes")}}
+		}
+		node := func(f gen.M, i int) gen.M { return f["nodes"].([]any)[i].(gen.M) }
+		cats := func(f gen.M) []any { return node(f, 0)["router"].(gen.M)["categories"].([]any) }
+		add("invalid-category-exit-of-another-node", mk(func(f gen.M) { cats(f)[0].(gen.M)["exit_uuid"] = gen.NamedUUID("exit:a2x") }))
+		add("invalid-category-exit-unknown", mk(func(f gen.M) { cats(f)[1].(gen.M)["exit_uuid"] = gen.NamedUUID("exit:nowhere") }))
+		add("invalid-exit-destination-unknown", mk(func(f gen.M) { node(f, 0)["exits"].([]any)[0].(gen.M)["destination_uuid"] = gen.NamedUUID("node:nowhere") }))
+		add("invalid-default-category-unknown", mk(func(f gen.M) { node(f, 0)["router"].(gen.M)["default_category_uuid"] = gen.NamedUUID("cat:nowhere") }))
+		add("invalid-timeout-category-unknown", mk(func(f gen.M) {
+			node(f, 0)["router"].(gen.M)["wait"] = gen.M{"type": "msg", "timeout": gen.M{"seconds": 60, "category_uuid": gen.NamedUUID("cat:nowhere")}}
+		}))
+		add("invalid-case-category-unknown", mk(func(f gen.M) { node(f, 0)["router"].(gen.M)["cases"].([]any)[0].(gen.M)["category_uuid"] = gen.NamedUUID("cat:nowhere") }))
+		add("invalid-duplicate-node-uuid", mk(func(f gen.M) { node(f, 2)["uuid"] = node(f, 1)["uuid"] }))
+		add("invalid-duplicate-exit-uuid", mk(func(f gen.M) { node(f, 2)["exits"].([]any)[0].(gen.M)["uuid"] = gen.NamedUUID("exit:a2x") }))
+	}
 	return out
 }
 
